@@ -10,6 +10,7 @@ import WrglModel.Model.Merge
 import WrglModel.Spec.Merge
 import WrglModel.Lemmas.C05
 import WrglModel.Lemmas.C05Cols
+import WrglModel.Gen.Facts
 namespace Wrgl
 
 /-- The decision chain of `tryResolve` on one column IS the three-way rule: unresolved iff two
@@ -83,6 +84,18 @@ theorem C05_cols_model_extends_same (cols : Row) (hnd : cols.Nodup) (key : List 
 example :
     resolveRecCols [[1], [2]] [[[1], [2], [3]], [[1]]] (some [[7], [8]]) [some [[7], [8], [9]], some [[7]]]
       = .resolved [[7], [], [9]] := by decide
+
+/-- The guards in front of every `unresolveCol(i)` of `tryResolve`'s inner loop, regenerated from
+    the source, fire exactly when the model's `cellStep` marks the column unresolved — in every
+    situation of a step (column added / removed in this layer or not; an earlier layer added or
+    modified the cell to the same or another value or not; removed by an earlier layer or not; the
+    base cell absent, equal or different). -/
+theorem C05_unresolve_table_is_model (isAdded isRemoved rem : Bool) (a m b : Fin 3) :
+    let v : Fin 3 → Option Bytes := fun i => if i = 0 then none else if i = 1 then some [1] else some [2]
+    let e : CellEnv := { isAdded := isAdded, isRemoved := isRemoved, add := v a, mod := v m, rem := rem, baseCell := v b, x := [1] }
+    tableFires (cellAtom e) Facts.resolveUnresolvePaths = some e.stepUnresolves := by
+  revert isAdded isRemoved rem a m b
+  decide
 
 /-- non-vacuity -/
 example : TableOK 2 [0] [[[1], [2]], [[3], [4]]] := by
